@@ -12,7 +12,7 @@
    about SHA-256 or JSON. *)
 From Coq Require Import List NArith Bool Permutation.
 Import ListNotations.
-From Oras Require Import Base.Prelude Generated.GC07 Model.GraphMem Model.GraphStore Model.IndexLTS Model.StoreLTS Model.Links Proofs.GraphMem Proofs.StoreLTS Proofs.Links Proofs.GraphStore Proofs.IndexLTS.
+From Oras Require Import Base.Prelude Generated.GC07 Model.GraphMem Model.GraphStore Model.IndexLTS Model.StoreLTS Model.IndexAllLTS Model.Links Proofs.GraphMem Proofs.StoreLTS Proofs.IndexAllLTS Proofs.Links Proofs.GraphStore Proofs.IndexLTS.
 
 (* The invariants written in the comments of graph.Memory hold after every history of
    Index / Remove / IndexAll / fresh-graph operations, with content appearing in and
@@ -130,6 +130,38 @@ Theorem C07_reload_exact :
                         (exists r, In r roots /\ areach content sok r p) /\ In n (content p).
 Proof. exact load_exact. Qed.
 Print Assumptions C07_reload_exact.
+
+(* IndexAll as it really runs (Model/IndexAllLTS.v): one task per descriptor, started
+   concurrently, each doing "commit in the tracker" and "index + start a task per successor"
+   as two atomic actions.  EVERY schedule that runs to completion indexes exactly the nodes
+   reachable from the root through fetchable nodes and keeps the invariant ... *)
+Theorem C07_indexall_every_schedule :
+  forall (content : node -> list node) (sok : node -> bool) g r trace st',
+    Inv content g ->
+    ia_run content sok (ia_init g r) trace = Some st' -> ia_done st' = true ->
+    Inv content (ia_g st') /\
+    forall x, In x (g_nodes (ia_g st')) <-> In x (g_nodes g) \/ areach content sok r x.
+Proof. exact ia_complete. Qed.
+Print Assumptions C07_indexall_every_schedule.
+
+(* ... so it answers every Predecessors query like the sequential work-list [index_all] that
+   the reload theorems are stated about *)
+Theorem C07_indexall_schedule_irrelevant :
+  forall (content : node -> list node) (sok : node -> bool) g r trace st' fuel g',
+    Inv content g ->
+    ia_run content sok (ia_init g r) trace = Some st' -> ia_done st' = true ->
+    index_all_root content sok fuel g r = (g', true) ->
+    (forall x, In x (g_nodes (ia_g st')) <-> In x (g_nodes g')) /\
+    forall n, Permutation (predecessors (ia_g st') n) (predecessors g' n).
+Proof. exact ia_same_as_sequential. Qed.
+Print Assumptions C07_indexall_schedule_irrelevant.
+
+Example C07_indexall_schedule_example :
+  exists st', ia_run (ctab ia_ct) (fun _ => true) (ia_init empty_graph 3%N)
+                [EvCommit 0; EvIndex 0; EvCommit 1; EvCommit 0; EvIndex 1; EvIndex 0;
+                 EvCommit 1; EvCommit 0; EvIndex 0] = Some st' /\
+              ia_done st' = true /\ predecessors (ia_g st') 1%N = [2; 3]%N.
+Proof. exact ia_example. Qed.
 
 (* Reopen: if the storage holds exactly the live graph's nodes and every live node
    with successors is listed as a root (OCI: every stored manifest is tagged by its
